@@ -24,8 +24,9 @@ func doMinimize(t *testing.T, p *Prop) {
 	var best Outcome
 	haveBest := false
 
+	over := func() bool { return time.Since(start) > budget }
 	try := func(w, s []uint32) bool {
-		if time.Since(start) > budget {
+		if over() {
 			return false
 		}
 		tries++
@@ -64,9 +65,23 @@ func doMinimize(t *testing.T, p *Prop) {
 				lo = mid + 1
 			}
 		}
+		// 1b. truncate W the same way
+		lo, hi = 0, len(W)
+		for lo < hi && !over() {
+			mid := (lo + hi) / 2
+			if try(W[:mid], S) {
+				hi = len(W)
+				if hi > mid {
+					hi = mid
+				}
+				progress = true
+			} else {
+				lo = mid + 1
+			}
+		}
 		// 2. zero chunks of S
 		for size := len(S) / 2; size >= 1; size /= 2 {
-			for i := 0; i+size <= len(S); i += size {
+			for i := 0; i+size <= len(S) && !over(); i += size {
 				if allZero(S[i : i+size]) {
 					continue
 				}
@@ -84,7 +99,7 @@ func doMinimize(t *testing.T, p *Prop) {
 		}
 		// 3. delete chunks of W
 		for size := 16; size >= 1; size /= 2 {
-			for i := 0; i+size <= len(W); {
+			for i := 0; i+size <= len(W) && !over(); {
 				c := append(append([]uint32{}, W[:i]...), W[i+size:]...)
 				if try(c, S) {
 					progress = true
@@ -94,7 +109,7 @@ func doMinimize(t *testing.T, p *Prop) {
 			}
 		}
 		// 4. zero / lower single values of W, then of S
-		for i := 0; i < len(W); i++ {
+		for i := 0; i < len(W) && !over(); i++ {
 			if W[i] == 0 {
 				continue
 			}
@@ -113,7 +128,7 @@ func doMinimize(t *testing.T, p *Prop) {
 				break
 			}
 		}
-		for i := 0; i < len(S) && len(S) <= 400; i++ {
+		for i := 0; i < len(S) && len(S) <= 400 && !over(); i++ {
 			if S[i] == 0 {
 				continue
 			}
